@@ -27,6 +27,10 @@ checks = {
    'Model-based monitor over all six rule modules: generated sequences of LoadRules / LoadRulesOfResource (LoadRuleOfResource for outlier) / ClearRules / ClearRulesOfResource / identical reload with freshly allocated equal objects, lists mixing binding valid rules (unique id + probe signature), inert valid rules, every field-wise invalidity class of the module and nil elements. After every step the getters (ids, order within a resource) and probe traffic (admissions until the first block and the triggered rule: frozen-window requests for flow, nested entries for isolation / hotspot / system, error completions for breakers, failing callee completions until FilterNodes reports the node for outlier) on the touched and on another resource are compared with the model = valid rules of the latest load per resource.',
    'Validity is the monitor\'s own transcription of each module\'s documented check; probes observe the binding (minimum-K) rule and the getters the whole list; generated rules are semantically unique (the managers re-use the controller and the old rule object of a rule equal in every field but ID, which is not treated as a violation); unsupported-enum rules accepted by the module\'s own check are not generated.',
    'runtime model-based monitor: getters + signature probe traffic vs latest-valid-load model', 'DESIGN.md §3 C13'),
+ 'C18': ('exploration',
+   'Model-based monitor of the five JSON property handlers: generated delivery sequences (arrays of generated valid / field-wise invalid rules written by a hand-written encoder of the documented wire format incl. hot-param specific items of all four kinds, arrays with null elements, identical redelivery, truncated JSON at a random byte, wrongly typed elements, garbage, empty payload, JSON null, bad-then-good); after each delivery Handle\'s return (nil iff decodable), absence of panics and the module\'s rules in force (every field, canonical form = wire round trip) are compared with the valid rules described by the last decodable payload. Second engine: the refreshable file datasource on a scratch file under write / truncate-then-write / in-place corruption / rename-away / remove, convergence polled and only counted when a control fsnotify watcher owned by the monitor saw the event.',
+   'Trusts the hand-written wire encoder and the monitor\'s transcription of rule validity; truncations are sampled, not every prefix; the file engine uses real inotify and a bounded wall-clock poll (inconclusive, not violated, when the control watcher saw nothing).',
+   'runtime model-based monitor over payload sequences + fault-sequence monitor on a real watched file with a control observer', 'DESIGN.md §3 C18'),
  'C16': ('exploration',
    'Trace monitor on generated chains of recording slots (order values with forced ties, 0-6 or 13-42 slots per kind, behaviours pass/nil/wait/block-fresh/block-by-mutating-context-result/panic, exit handlers error/panic): the complete call log of each Entry/Exit/re-Exit is compared with the sequence implied by the chain description (ascending order, stable ties, first block wins, statistic callbacks exactly once, fail-open), and every returned *BlockError is re-read after 1/10/100/1000 further entries that recycle pooled objects.',
    'Trusts the chain description as oracle; sequential, GOMAXPROCS=1 so that sync.Pool is a LIFO.',
